@@ -39,6 +39,9 @@ def sample_cases(draw, tier="quick"):
     c["Nt"] = draw(st.integers(1, N + 3))
     # memory layout of the sample array handed to Samples (Fortran order, non-contiguous view, negative strides, read-only)
     c["layout"] = draw(st.sampled_from(gen.LAYOUTS))
+    # chains on a large base line (2^27 ~ 1.3e8 plus O(1) fluctuations: time stamps, energies): one-pass formulas such as
+    # E[x^2] - E[x]^2 lose every digit there, numpy's two-pass statistics do not
+    c["offset"] = draw(st.sampled_from([0.0, 0.0, 0.0, 2.0 ** 27])) if (kind != "par" or (c.get("geom") != "mapped_exp" and not c.get("int_raw"))) else 0.0
     c["percent"] = draw(st.sampled_from([95, 50, 99, 68.3, 0, 100, 10]))
     c["ops"] = draw(st.lists(st.one_of(
         st.tuples(st.just("burnthin"), st.integers(0, 6), st.integers(1, 4)),
@@ -51,7 +54,7 @@ def sample_cases(draw, tier="quick"):
 
 def build(c):
     import cuqi
-    raw = np.array(c["raw"], dtype=float)
+    raw = np.array(c["raw"], dtype=float) + float(c.get("offset", 0.0))
     if c["kind"] == "par":
         d = raw.shape[0]
         G = {"none": None, "cont1d": cuqi.geometry.Continuous1D(d), "discrete": cuqi.geometry.Discrete(d),
